@@ -493,3 +493,21 @@ package kafka
 //@   modifies heap
 //@   ensures cg.$left
 //@   loop 0 invariant cg.$left == (len(memberID) == 0)
+
+//@ property C01
+
+//@ func (*Writer).writeTimeout
+//@   pure
+//@   reads w.WriteTimeout
+//@ func (*Writer).client
+//@   trusted builds a Client value from the writer's configuration
+//@   ensures result != nil
+//@ func (*Client).Produce
+//@   trusted one produce exchange through the Transport (C04/C05/C12 cover its parts)
+
+// Every produce attempt carries the whole batch: the record reader handed to Client.Produce is a writerRecords
+// positioned at the first message of batch.msgs (a retry must not reuse a consumed cursor).
+//@ func (*Writer).produce
+//@   option noframe
+//@   modifies heap
+//@   callsite (*Client).Produce requires typeis($2.Records, "*kafka.writerRecords") && deref($2.Records, "writerRecords").index == 0 && same(deref($2.Records, "writerRecords").msgs, batch.msgs)
